@@ -1,10 +1,12 @@
 """C16 — match propagation marks a sub-expression as matching exactly when it is true.  DESIGN 3.C16."""
+import re
+
 import z3
 
-from vfkit import bounded, core, model, paths, sym
+from vfkit import bounded, core, model, paths, rewrite, sym
 from vfkit.check import Plan
 from vfkit.paths import SymPath, SymSet, P
-from vfkit.sym import EngineUnsupported, S, B, SymBool, SymInt, ctx
+from vfkit.sym import EngineUnsupported, PathStop, S, B, SymBool, SymInt, ctx
 
 from . import c01, c08, treecases
 
@@ -21,38 +23,85 @@ def near_axiom(p_term, matching, other):
                                        z3.If(z3.Length(p_term) == 0, z3.BoolVal(False), near(parent))))
 
 
-def status_cases():
-    def run(cx):
-        """C16-S: _status_from_parent(path) == near(path), the recursive call on the strict prefix stubbed by near"""
-        mp = N.MatchingPropagator()
-        path = SymPath(name="path")
-        matching, other = SymSet(name="matching"), SymSet(name="other")
-        depth = [0]
-        real = N.MatchingPropagator._status_from_parent
-        seen = []
+class StatusCut:
+    """cut-point for the iterative spelling of _status_from_parent (`while True: ... path = path[:-1]`): the status of the path in
+    hand is the status of the path asked for; decreases the length of the path in hand"""
 
-        def wrapped(p, m, o):
-            depth[0] += 1
+    def __init__(self, mode, cx, path0, matching, other):
+        self.mode, self.cx, self.path0, self.matching, self.other = mode, cx, path0, matching, other
+        self.entered = 0
+        self.pre = None
+
+    def inv(self, p):
+        pt = P(p)
+        return z3.And(near(pt) == near(self.path0.t), z3.Length(pt) <= z3.Length(self.path0.t))
+
+    def enter(self, loc):
+        self.entered += 1
+        names = getattr(self, "rebindable", ()) or tuple(loc)
+        self.v = rewrite.state_variable(loc, names, lambda v: v is self.path0, "the path in hand")
+        if self.mode == "init":
+            raise PathStop([("C16-S/status_from_parent/loop/invariant-holds-on-entry", self.inv(loc[self.v]))])
+        q = SymPath(name="path_in_hand")
+        self.cx.assume(self.inv(q))
+        self.cx.assume(near_axiom(q.t, self.matching, self.other))
+        self.pre = z3.Length(q.t)
+        return {self.v: q}
+
+    def step(self, loc):
+        if self.mode != "havoc":
+            return
+        p2 = loc[self.v]
+        raise PathStop([("C16-S/status_from_parent/loop/invariant-preserved", self.inv(p2)),
+                        ("C16-S/status_from_parent/loop/decreases", z3.And(z3.Length(P(p2)) < self.pre, z3.Length(P(p2)) >= 0))])
+
+
+STATUS_LOOPS = re.compile(r"luqum\.naming\.MatchingPropagator\.\w+#while\d+")
+
+
+def status_cases():
+    def make(mode):
+        def run(cx):
+            """C16-S: _status_from_parent(path) == near(path).  Recursive spelling: the call on the strict prefix is stubbed by near.
+            Iterative spelling: loop invariant (StatusCut); `init` stops at the loop head, `havoc` runs one iteration from an arbitrary state."""
+            mp = N.MatchingPropagator()
+            path = SymPath(name="path")
+            matching, other = SymSet(name="matching"), SymSet(name="other")
+            depth = [0]
+            real = N.MatchingPropagator._status_from_parent
+            seen = []
+
+            def wrapped(p, m, o):
+                depth[0] += 1
+                try:
+                    if depth[0] == 1:
+                        return real(mp, p, m, o)
+                    seen.append(p)
+                    return SymBool(near(P(p)))
+                finally:
+                    depth[0] -= 1
+            mp._status_from_parent = wrapped
+            cx.assume(near_axiom(path.t, matching, other))
+            m0, o0 = matching.t, other.t
+            cut = StatusCut(mode, cx, path, matching, other)
+            rewrite.WHILE_CUT_PATTERNS.append((STATUS_LOOPS, cut))
             try:
-                if depth[0] == 1:
-                    return real(mp, p, m, o)
-                seen.append(p)
-                return SymBool(near(P(p)))
+                r = mp._status_from_parent(path, matching, other)
             finally:
-                depth[0] -= 1
-        mp._status_from_parent = wrapped
-        cx.assume(near_axiom(path.t, matching, other))
-        m0, o0 = matching.t, other.t
-        r = mp._status_from_parent(path, matching, other)
-        rt = B(r)
-        obls = [("C16-S/status_from_parent/is-the-status-of-the-nearest-named-ancestor-or-self", rt == near(path.t)),
-                # frame: the look-up is used while the sets are still being read by the propagation of other nodes
-                ("C16-S/status_from_parent/the-given-path-sets-are-not-modified", z3.And(matching.t == m0, other.t == o0))]
-        if seen:
-            obls.append(("C16-S/status_from_parent/recursion-on-the-strict-prefix",
-                         z3.And(P(seen[0]) == z3.Extract(path.t, 0, z3.Length(path.t) - 1), z3.Length(path.t) > 0)))
-        return obls
-    return [core.Case("C16-S/status_from_parent", run, functions=["luqum.naming.MatchingPropagator._status_from_parent"])]
+                rewrite.WHILE_CUT_PATTERNS.remove((STATUS_LOOPS, cut))
+            if mode == "havoc" and not cut.entered:
+                return [("C16-S/status_from_parent/loop/no-loop: the recursive spelling is decided by the other case", True)]
+            rt = B(r)
+            obls = [("C16-S/status_from_parent/is-the-status-of-the-nearest-named-ancestor-or-self", rt == near(path.t)),
+                    # frame: the look-up is used while the sets are still being read by the propagation of other nodes
+                    ("C16-S/status_from_parent/the-given-path-sets-are-not-modified", z3.And(matching.t == m0, other.t == o0))]
+            if seen:
+                obls.append(("C16-S/status_from_parent/recursion-on-the-strict-prefix",
+                             z3.And(P(seen[0]) == z3.Extract(path.t, 0, z3.Length(path.t) - 1), z3.Length(path.t) > 0)))
+            return obls
+        return run
+    return [core.Case("C16-S/status_from_parent", make("init"), functions=["luqum.naming.MatchingPropagator._status_from_parent"]),
+            core.Case("C16-S/status_from_parent/loop", make("havoc"), functions=["luqum.naming.MatchingPropagator._status_from_parent"])]
 
 
 def propagate_cases():
